@@ -175,7 +175,8 @@ func c08Space(x *mc.Exec) {
 	if Thorough() {
 		max = 3
 	}
-	raw, params, path := GenURL(x, max)
+	// thorough: a third parameter from the reduced menu (two instances per parameter name)
+	raw, params, path := GenURLReduced(x, max, 2)
 	soft := len(x.Choices())%2 == 0
 	schema := urlSchema(soft)
 	x.Render(raw)
@@ -346,7 +347,7 @@ func c08Trees(x *mc.Exec) {
 func init() {
 	Register(&Prop{
 		ID: "C08",
-		Rule: "Engine A, all choices Full: every URL of the C07 query space (16 paths x ordered sequences of 0..2, thorough 3, parameters from the ~100-instance menu) that the parser accepts; ids, page values, page keys, filter labels and filter strings containing each of 12 reserved-character samples (space & ? # % + / = , non-ASCII) at 6 positions; every and/or filter tree of depth <= 2 (thorough 3) and fan-out <= 2 with and without a collation on each operator node. Oracle: String() parses, the re-parsed URL has the same fragments, type, id, relationship, field selection, sorting rules, page map (collection URLs), filter label / canonical filter JSON, and its String() is the same text; String() itself changes nothing read from the URL and is repeatable; every permutation of differently named parameters, reversal of fields/include lists and insertion of empty items yields the same String(). Non-trivial = accepted URL",
+		Rule: "Engine A, all choices Full: every URL of the C07 query space (17 paths x ordered sequences of 0..2 parameters, thorough: plus a third one out of two instances per parameter name, from the ~120-instance menu incl. and/or operators in other letter cases and a type whose field names differ by case only) that the parser accepts; ids, page values, page keys, filter labels and filter strings containing each of 12 reserved-character samples (space & ? # % + / = , non-ASCII) at 6 positions; every and/or filter tree of depth <= 2 (thorough 3) and fan-out <= 2 with and without a collation on each operator node. Oracle: String() parses, the re-parsed URL has the same fragments, type, id, relationship, field selection, sorting rules, page map (collection URLs), filter label / canonical filter JSON, and its String() is the same text; String() itself changes nothing read from the URL and is repeatable; every permutation of differently named parameters, reversal of fields/include lists and insertion of empty items yields the same String(). Non-trivial = accepted URL",
 		Assumptions: []string{"'page parameters' = the whole Page map of a collection URL"},
 		Harnesses: []Harness{
 			{Name: "C08/space", Body: c08Space, Dev: func() int { return 1 }},
